@@ -11,7 +11,11 @@ PROP = dict(
          "failing operation of 15 kinds (inside the wrapper generated for an intrinsic used as a function value (array_get, divide_int; "
          "D92: attributed to the place where the function value is made), int/float division and remainder by zero, + * unary- ^ overflow, array read/write "
          "out of bounds, panic(), ! on option.none / result.err inside the prelude) in 9 statement contexts incl. multi-line "
-         "calls; plus one hard probe: a function frame with 16500 locals (D90: no register fusion beyond 15 bits) failing at a known line; "
+         "calls; plus hard probes: two three-file programs with a 65600-element int array literal in <main> (more than 65536 distinct "
+         "constants) in which immediates with late constants — expanded into push + plain instruction by expand_immediates — precede the "
+         "failing site (division by zero in leaf.abra at depth 3; array index out of bounds in helper.abra after a finished call) and the "
+         "call site of every frame; the model's input is the FINAL instruction list (optimized assembly with each expanded immediate "
+         "duplicated), and its length must equal the compiled program's instruction count; and a function frame with 16500 locals (D90: no register fusion beyond 15 bits) failing at a known line; "
          "quick 420 programs / thorough 6000; per program 3 cases: (render) VmError text vs the expected chain rendered "
          "by the model, (build) the three location tables of the compiled program vs SrcMap.build of the optimized assembly's "
          "annotations, (locs) pc_to_error_location(pc+1) for EVERY instruction vs SrcMap.lookup; distinct = distinct request; "
